@@ -185,7 +185,8 @@ def gen_positions(rng, n, ndim):
 
 
 def gen_params(rng, span):
-    mpp = rng.choice([1.0, 1.0, 0.5, 0.25, 2.0, 1.5, 0.1, 100 / 285.])
+    # microns per pixel - or metres per pixel (1e-7), or any other unit: the result scales with mpp squared, whatever its size
+    mpp = rng.choice([1.0, 1.0, 0.5, 0.25, 2.0, 1.5, 0.1, 100 / 285., 1e-7, 2.0 ** -23, 1e-9, 1.6e-7, 3.0e4])
     fps = rng.choice([1.0, 1.0, 2.0, 24.0, 0.5, 30.0, 7.0])
     ml = rng.choice([100, 100, 1, 2, 3, 5, max(span, 1), max(span - 1, 1), span + 1, span + 2])
     return mpp, fps, ml
@@ -530,14 +531,27 @@ def run_impl(c):
     return 'ok', out, msgs
 
 
+def unit(c):
+    """the power of two nearest to mpp when mpp is far from 1 (a length unit like metres per pixel), else 1.  Every quantity msd
+    reports is homogeneous in mpp (displacements ~ mpp, squared displacements ~ mpp^2, N and the lag columns not at all), and
+    scaling by a power of two is exact in binary floating point: the comparison with the model is made in the unit u = unit(c)
+    (model run with mpp/u, reported displacements divided by u, squared ones by u^2), where the a-priori rounding bound of tol()
+    applies unchanged.  Without this, values of 1e-14 (mpp = 1e-7) would be compared with an absolute slack of 2^-34."""
+    m = float(c['mpp'])
+    if m <= 0 or (2.0 ** -4 <= m <= 2.0 ** 4):
+        return Fraction(1)
+    k = int(round(math.log2(m)))
+    return Fraction(2) ** k
+
+
 def tol(c):
     """a-priori float bound: the FFT path forms S1 - 2*S2 from sums of n squared
     coordinates (magnitude n*(mpp*max|x|)^2), each float operation contributes
     <= 2^-53 relative, O(n + log n) operations per entry -> error <= ~ n * scale * 2^-50;
-    we allow scale * 2^-34 (x 2^16 headroom), scale = max(1, n * (mpp*max|x|)^2).
+    we allow scale * 2^-34 (x 2^16 headroom), scale = max(1, n * (mpp*max|x|)^2), with mpp expressed in the unit of unit(c).
     The comparison in Coq is |impl - exact| <= tol * (1 + |exact|)."""
     P = [r[-1] for r in c['rows']]
-    m = max([abs(v) for p in P for v in p] + [1.0]) * c['mpp']
+    m = max([abs(v) for p in P for v in p] + [1.0]) * float(Fraction(c['mpp']) / unit(c))
     scale = max(1.0, len(P) * m * m)
     return Fraction(int(scale) + 1, 2 ** 34)
 
@@ -559,22 +573,25 @@ def is_valid(c):
 
 
 def case_term(c, status, out):
-    oq = lambda v: copt(v, cQ)
+    u = unit(c)                                                   # power of two: the divisions below are exact
+    ex = lambda v: Fraction(*float(v).as_integer_ratio())
+    o1 = lambda v: copt(v, lambda w: cQ(ex(w) / u))               # displacements, in units of u
+    o2 = lambda v: copt(v, lambda w: cQ(ex(w) / (u * u)))         # squared displacements
     head = "%s %s" % (cQ(tol(c)), cbool(is_valid(c)))
-    tail = "%s %s %s %s" % (cQ(c['mpp']), cQ(c['fps']), cnat(min(c['max_lagtime'], 4000)), cnat(c['ndim']))
+    tail = "%s %s %s %s" % (cQ(Fraction(c['mpp']) / u), cQ(c['fps']), cnat(min(c['max_lagtime'], 4000)), cnat(c['ndim']))
     if c['kind'] == 'msd':
         traj = clist([crow(f, p) for f, p in c['rows']])
         o = "None" if status == 'raise' else "(Some %s)" % clist(
-            ["(%s, %s, %s, %s, %s, %s)" % (cZ(r['lag']), cQ(r['lagt']), clist([oq(v) for v in r['disp']]), clist([oq(v) for v in r['sq']]),
-                                         oq(r['msd']), cQ(r['N'])) for r in out])
+            ["(%s, %s, %s, %s, %s, %s)" % (cZ(r['lag']), cQ(r['lagt']), clist([o1(v) for v in r['disp']]), clist([o2(v) for v in r['sq']]),
+                                         o2(r['msd']), cQ(r['N'])) for r in out])
         return "check_msd %s %s %s %s" % (head, traj, tail, o)
     traj = clist(["(%s, %s)" % (cZ(pid), crow(f, p)) for pid, f, p in c['rows']])
     if c['kind'] == 'imsd':
         o = "None" if status == 'raise' else "(Some (%s, %s))" % (
-            clist([cZ(p) for p in out['pids']]), clist(["(%s, %s)" % (cQ(r['lagt']), clist([oq(v) for v in r['vals']])) for r in out['rows']]))
+            clist([cZ(p) for p in out['pids']]), clist(["(%s, %s)" % (cQ(r['lagt']), clist([o2(v) for v in r['vals']])) for r in out['rows']]))
         return "check_imsd %s %s %s %s" % (head, traj, tail, o)
     o = "None" if status == 'raise' else "(Some %s)" % clist(
-        ["(%s, %s, %s, %s)" % (cZ(r['lag']), cQ(r['lagt']), oq(r['msd']), cQ(r['N'])) for r in out])
+        ["(%s, %s, %s, %s)" % (cZ(r['lag']), cQ(r['lagt']), o2(r['msd']), cQ(r['N'])) for r in out])
     return "check_emsd %s %s %s %s" % (head, traj, tail, o)
 
 
@@ -605,9 +622,11 @@ def nontrivial(c):
     return len(c['rows']) >= 4 and c['max_lagtime'] >= 2
 
 
-def close_py(a, b, t):
+def close_py(a, b, t, u2=1.0):
+    """u2: the square of unit(c) - values are compared in that unit (exact rescaling)"""
     if a is None or b is None:
         return a is None and b is None
+    a, b = a / u2, b / u2
     return abs(a - b) <= float(t) * (1 + abs(b)) * 4
 
 
@@ -624,17 +643,18 @@ def order_monitor(c, status, out, rng):
     if status == 'raise':
         return None
     t = tol(c)
+    u2 = float(unit(c) ** 2)
     if c['kind'] == 'imsd':
         if out['pids'] != o2['pids'] or len(out['rows']) != len(o2['rows']):
             return 'row order changes the shape of the result'
         for a, b in zip(out['rows'], o2['rows']):
-            if a['lagt'] != b['lagt'] or not all(close_py(x, y, t) for x, y in zip(a['vals'], b['vals'])):
+            if a['lagt'] != b['lagt'] or not all(close_py(x, y, t, u2) for x, y in zip(a['vals'], b['vals'])):
                 return 'row order changes the result'
         return None
     if len(out) != len(o2):
         return 'row order changes the number of lags'
     for a, b in zip(out, o2):
-        if a['lag'] != b['lag'] or a['lagt'] != b['lagt'] or not close_py(a['msd'], b['msd'], t):
+        if a['lag'] != b['lag'] or a['lagt'] != b['lagt'] or not close_py(a['msd'], b['msd'], t, u2):
             return 'row order changes the result'
     return None
 
